@@ -155,6 +155,31 @@ theorem memAgrees_maybeRun (cfg : Cfg) (k : K) (ans : Con) (s : St K) (h : DD.Me
   · exact DD.memAgrees_load _ _ h
   · exact DD.memAgrees_set _ _ _ (DD.memAgrees_load _ _ h)
 
+theorem updateFromTree_dd (tie : Bool) (ow : Overwrite) (k : K) (new : Con) (s : St K) :
+    (updateFromTree tie ow k new s).dd = s.dd.load k ∨
+    (updateFromTree tie ow k new s).dd = (s.dd.load k).set k new := by
+  unfold updateFromTree
+  simp only []
+  cases (s.dd.load k).view k with
+  | none => right; rfl
+  | some old =>
+    cases ow with
+    | no => left; rfl
+    | yes => right; rfl
+    | improved => simp only []; split <;> simp
+
+theorem memAgrees_updateFromTree (tie : Bool) (ow : Overwrite) (k : K) (new : Con) (s : St K)
+    (h : DD.MemAgrees s.dd) : DD.MemAgrees (updateFromTree tie ow k new s).dd := by
+  rcases updateFromTree_dd tie ow k new s with e | e <;> rw [e]
+  · exact DD.memAgrees_load _ _ h
+  · exact DD.memAgrees_set _ _ _ (DD.memAgrees_load _ _ h)
+
+theorem disk_isSome_updateFromTree (tie : Bool) (ow : Overwrite) (k : K) (new : Con) (s : St K) :
+    (updateFromTree tie ow k new s).dd.disk.isSome = s.dd.disk.isSome := by
+  rcases updateFromTree_dd tie ow k new s with h | h <;> rw [h]
+  · rw [DD.disk_load]
+  · rw [DD.disk_set_isSome, DD.disk_load]
+
 theorem better_le (cfg : Cfg) (ans old : Con) (h : better cfg ans old = true) : ans.score ≤ old.score := by
   unfold better at h
   simp only [Bool.or_eq_true, decide_eq_true_eq, Bool.and_eq_true, beq_iff_eq] at h
